@@ -131,6 +131,10 @@ func otherValue(r *rng.Rand, n *spec.Node) any {
 		if r.Intn(6) == 0 {
 			return strings.Repeat(Word(r), r.Range(1, 4))
 		}
+		if r.Intn(30) == 0 {
+			// invisible but not white space: present, non-zero text (zero width space, byte order mark, word joiner, soft hyphen)
+			return []string{"\u200b", "\ufeff", "\u2060\u200b", "\u00ad", "\u200e \u200b"}[r.Intn(5)]
+		}
 		return Word(r)
 	case spec.Bool:
 		return r.Bool()
